@@ -679,6 +679,16 @@ func specTxnLine(cid string, sc *specColl, t *specTxn, toks []string, o string, 
 				t.changes = append(t.changes, specChange{f[0], off, f[1], v})
 			case "bool":
 				t.changes = append(t.changes, specChange{"bool", off, f[1], []byte(f[2])})
+			case "rowkey":
+				// Row.SetKey reports nothing: it takes effect iff no live row holds the key
+				v, _ := unhex(f[1])
+				if sc.keyOf(v) < 0 {
+					t.keysSet[string(v)]++
+					if t.keysSet[string(v)] > 1 {
+						taint(cid, "D14")
+					}
+					t.changes = append(t.changes, specChange{"key", off, "", v})
+				}
 			case "key":
 				v, _ := unhex(f[1])
 				res := nextOut(func(x string) bool { return x == "set" || x == "dup" })
